@@ -15,6 +15,7 @@ FILES = {
     'internal/bytecode/memory/memory.go': ['sync', 'syscall'],
     'internal/bytecode/memory/mwrite_amd64.go': ['syscall'],
     'internal/bytecode/memory/mwrite_unix.go': ['syscall'],
+    'internal/bytecode/memory/mwrite_prot.go': ['syscall'],
     'internal/unexports2/unexports2.go': ['sync'],
     'internal/bytecode/stub/holder.go': ['sync/atomic'],
     'internal/bytecode/stub/mmap_unix.go': ['syscall'],
@@ -49,7 +50,7 @@ def generate(builddir, repo='/repo'):
             rel = os.path.relpath(os.path.join(root, f), repo)
             if rel in FILES or rel.startswith('internal/arch/') or rel.startswith('internal/logger/'):
                 continue
-            if re.search(r'_(windows|darwin|arm64|386)\.go$', f) or f == 'mwrite_prot.go':
+            if re.search(r'_(windows|darwin|arm64|386)\.go$', f):
                 continue
             src = open(os.path.join(root, f), encoding='utf8').read()
             if re.search(r'^\s*(import\s+)?"(sync|sync/atomic)"\s*$', src, re.M):
